@@ -168,13 +168,17 @@ BLENDS = [0.3, 0.0625, 1.0]
 
 
 def _char_variants(tier):
-    return [[d, b] for d in (2, 3) for b in BLENDS]
+    # "free": the blend width itself is drawn (a new kernel per case: the width is embedded in the generated source); rounding of
+    # width-derived constants differs from width to width
+    return [[d, b] for d in (2, 3) for b in BLENDS] + [[d, "free"] for d in (2, 3)] * 2
 
 
 def _char_strategy(tier, var):
     @st.composite
     def case(draw):
-        return {"dim": var[0], "blend": var[1], "dtype": draw(gen.precisions), "threads": draw(st.sampled_from([False, 2])),
+        blend = var[1] if var[1] != "free" else draw(st.one_of(gen.log_uniform(0.01, 2.0), gen.floats(0.01, 0.5, 64)))
+        return {"dim": var[0], "blend": blend, "dtype": draw(gen.precisions),
+                "threads": draw(st.sampled_from([False, 2])) if var[1] != "free" else False,
                 "values": draw(st.lists(gen.floats(-3.0, 3.0, 64), min_size=8, max_size=40)),
                 "ulps": draw(st.lists(st.integers(-3, 3), min_size=4, max_size=4))}
 
@@ -187,8 +191,11 @@ def _char_body(case, ctx):
     eps = float(np.finfo(real_t).eps)
     gname = f"gen_char_func_from_level_set_via_sine_heaviside_pyst_kernel_{dim}d"
     with ctx.repo_call(gname):
-        k = _cached((gname, bw, case["dtype"], case["threads"]),
-                    lambda: kernels.build(gname, {"blend_width": bw}, None, real_t, case["threads"])[0])
+        if bw in BLENDS:
+            k = _cached((gname, bw, case["dtype"], case["threads"]),
+                        lambda: kernels.build(gname, {"blend_width": bw}, None, real_t, case["threads"])[0])
+        else:
+            k = kernels.build(gname, {"blend_width": bw}, None, real_t, case["threads"])[0]
     vals = [v * bw for v in case["values"]]
     special = [0.0, bw, -bw]
     b = real_t(bw)
@@ -227,7 +234,7 @@ def _char_body(case, ctx):
         j = int(np.argmax(np.abs(h0 + h1 - 1.0)))
         raise Violation(f"H(phi)+H(-phi) = {h0[j] + h1[j]!r} != 1 at phi={p0[j]!r} (blend {bw})")
     ctx.note(nontrivial=bool(np.any(beyond_pos)) and bool(np.any(beyond_neg)) and bool(np.any(np.abs(p0) < bw)),
-             labels=[f"{dim}d_blend{bw}", case["dtype"]])
+             labels=[f"{dim}d_blend{bw}" if bw in BLENDS else f"{dim}d_blend_drawn", case["dtype"]])
 
 
 # ------------------------------------------------------------------------------------------------
@@ -421,7 +428,7 @@ PARTS = [
     Part(name="brinkmann", strategy=_brink_strategy, body=_brink_body, variants=_brink_variants,
          examples={"quick": 420, "thorough": 8000}, shards={"quick": 7, "thorough": 14}),
     Part(name="char_function", strategy=_char_strategy, body=_char_body, variants=_char_variants,
-         examples={"quick": 300, "thorough": 6000}, shards={"quick": 3, "thorough": 6}),
+         examples={"quick": 400, "thorough": 6000}, shards={"quick": 10, "thorough": 10}),
     Part(name="boundary_damping", strategy=_damp_strategy, body=_damp_body, variants=_damp_variants,
          examples={"quick": 280, "thorough": 6000}, shards={"quick": 7, "thorough": 14}),
     Part(name="laplacian_filters", strategy=_filt_strategy, body=_filt_body, variants=_filt_variants,
